@@ -26,35 +26,48 @@ from vlib.shrink import ddmin
 from tables.c09 import canon, jtext
 
 META = {
-    'level_text': 'Theorems about an explicit object-heap model of HasAccessibles.__init_subclass__ / Module.__init__ / datatype '
-                  'mutation (FrappyModel/Klass): frame (every operation leaves every existing object alone that is not reachable from '
-                  'its target), separated_preserved (every admissible operation - class definition, instantiation, setProperty, enum '
-                  'replacement - keeps: no object reachable from an instance is reachable from another owner), isolated / '
-                  'isolated_reachable (description and validation behaviour of every non-target owner unchanged, after any admissible '
-                  'program), class_description_stable, later_instances_fresh (all for every admissible run).  PARTIAL: '
-                  'order_independent_partial - the value a class is laid out from (ClassRec.pure) equals pureOf(env), a function of '
-                  'the class bodies along its MRO only, for every program whose definition order is consistent with inheritance; '
-                  'that describeH shows exactly this value (faithfulness of the heap layout) is not proved '
-                  '(order_independent_statement).  Tied to the code by a correspondence run (every dump and the id()-sharing '
-                  'partition after every operation of generated programs) and by Lean monitors judging every implementation trace '
-                  '(isolation incl. write_<p>/command-call behaviour, order independence, later instances, writes follow the own datatype).',
+    'level_text': 'Theorems about an explicit object-heap model of HasProperties/HasAccessibles.__init_subclass__, Module.__init__ and '
+                  'datatype mutation (FrappyModel/Klass): frame (every operation leaves every existing object alone that is not reachable '
+                  'from its target), separated_preserved (every admissible operation - class definition incl. module properties, '
+                  'instantiation, setProperty on a parameter or on a member datatype at any path, enum replacement - keeps: no object '
+                  'reachable from an instance is reachable from another owner), isolated / isolated_reachable (description and validation '
+                  'behaviour of every non-target owner unchanged, after any admissible program), class_description_stable, '
+                  'later_instances_fresh; for the module-level properties (group, visibility, custom Property(...), bare values on any '
+                  'number of levels): isolated_mprops, class_mprops_stable, describeM_instantiate, later_instances_mprops (all for every '
+                  'admissible run); class_never_changes / inst_never_changes_mprops (once defined / created, for every admissible '
+                  'continuation); order_independent (FULL: any two programs with the same class bodies, each in an order consistent with '
+                  'inheritance, show the same heap description for every common class - it is viewsOf(env), a function of the class '
+                  'bodies along the MRO), order_independent_mprops, class_mprops_faithful, inst_description_function / '
+                  'inst_mprops_function (the description of an instance is a function of viewsOf/pureOf of its class and its '
+                  'configuration).  '
+                  'Tied to the code by a correspondence run (every dump, '
+                  'propertyDict, property values, exportProperties and the id()-sharing partition incl. Property objects and member '
+                  'datatypes after every operation of generated programs) and by Lean monitors judging every implementation trace '
+                  '(isolation incl. write_<p>/command-call behaviour and module properties, order independence, later instances, writes '
+                  'follow the own datatype).',
     'level_note': 'Trusted: Lean kernel + axioms propext/Classical.choice/Quot.sound; Python C3 linearisation is an input (the real '
                   '__mro__ is passed to the model); validation behaviour is taken to be a function of the exported datainfo '
                   '(monitored on every run); whether an operation fails is taken from the implementation (the model skips failed '
-                  'operations, the judge demands they change nothing); faithfulness of the heap layout w.r.t. the value-level result '
-                  'is tested by the correspondence run, not proved; write/call outcomes are judged, not predicted by the model.',
+                  'operations, the judge demands they change nothing), in particular whether a bare value is accepted by the datatype '
+                  'of a module property; property values travel in exported form (generated values are fixed points of '
+                  'export(validate(v))); the model itself (that frappy lays objects out as FrappyModel/Klass/Instance.lean says) is tested by '
+                  'the correspondence run; write/call outcomes are judged, not predicted by the model.',
     'trusted': [
         "Python's C3 linearisation (the real __mro__ of every generated class is passed to the model as data)",
         'validation behaviour of a datatype object is a function of its exported datainfo (checked by the monitor valFunctionalB on every run)',
-        'class bodies are drawn from a template family (type() with Parameter/Command/bare value/None/method declarations), not arbitrary Python',
+        'class bodies are drawn from a template family (type() with Parameter/Command/Property/bare value/None/method declarations), not arbitrary Python',
+        'a LimitsType is told to the model as such (kind "limits", one member); every other datatype object by its exported datainfo',
     ],
     'modelled_not_verified': [
-        'module-level properties (group, visibility, ...): dumped and judged, not predicted by the model',
+        'module properties set by Module.__init__ from the class chain (implementation, interface_classes, features): dumped and judged, not predicted',
         'read_/write_/check_ wrapper generation in __init_subclass__',
-        'Limit parameters, TupleOf declared by generated classes (TupleOf/StatusType appear through frappy.modules only); StructOf only as command argument',
+        'Limit parameters (<p>_min/_max/_limits); ScaledInteger, BLOBType, StatusType/OrType/NoneOr as parameter datatypes (StatusType appears through frappy.modules only)',
         'outcomes of write_<p>(v) through the generated wrapper and of Command.do(): dumped, judged (isolation, order, writesOwn), not predicted',
+        'the module property `export = False` (switches the export of all accessibles off) is never generated',
     ],
-    'assumptions': ['declared datatype objects are not shared between two declarations of the generated program'],
+    'assumptions': ['declared datatype objects are not shared between two declarations of the generated program',
+                    'names of module properties and names of accessibles are kept apart by the generator (pollinterval, a Property of Module '
+                    'and a Parameter of Readable, is the one overlap and is modelled: the Parameter removes the Property)'],
 }
 
 CATALOGUE = [0, 1, -1, 2, 3, 4, 5, 6, 7, 9, 10, 11, 20, 50, 100, 101, 2.5, 1e9, -1e9, 'a', 'abcde', 'x' * 12, True, None,
@@ -85,7 +98,48 @@ def mk_dt(spec):
         return D.ArrayOf(mk_dt(spec['child']), props.get('minlen', 0), props.get('maxlen'))
     if t == 'struct':
         return D.StructOf(**{k: mk_dt(v) for k, v in spec['members'].items()})
+    if t == 'tuple':
+        return D.TupleOf(*[mk_dt(c) for c in spec['children']])
+    if t == 'limits':       # ONE member object, used twice (datatypes.py: LimitsType)
+        return D.LimitsType(mk_dt(spec['child']))
+    if t == 'text':
+        return D.TextType(props.get('maxchars'))
     raise ValueError(t)
+
+
+def dt_children(dt):
+    """the member datatype objects of a datatype object, in the order the paths of a program count them"""
+    from frappy import datatypes as D
+    if isinstance(dt, D.ArrayOf):
+        return [dt.members]
+    if isinstance(dt, D.TupleOf):
+        return list(dt.members)
+    if isinstance(dt, D.StructOf):
+        return [dt.members[k] for k in sorted(dt.members)]
+    return []
+
+
+def dt_at(dt, path):
+    for i in path:
+        dt = dt_children(dt)[i]
+    return dt
+
+
+def dt_paths(dt, path=()):
+    """all (path, datatype object) below and including dt"""
+    out = [(list(path), dt)]
+    for i, c in enumerate(dt_children(dt)):
+        out += dt_paths(c, path + (i,))
+    return out
+
+
+def dt_kind(dt):
+    from frappy import datatypes as D
+    for k, c in (('float', D.FloatRange), ('int', D.IntRange), ('text', D.TextType), ('string', D.StringType), ('bool', D.BoolType),
+                 ('enum', D.EnumType), ('array', D.ArrayOf), ('limits', D.LimitsType), ('tuple', D.TupleOf), ('struct', D.StructOf)):
+        if isinstance(dt, c):
+            return k
+    return None
 
 
 def mk_func(sig):
@@ -125,7 +179,48 @@ def mk_decl(decl):
         return Command(arg, result=None, **kw)(mk_func(decl.get('sig')))
     if k == 'method':
         return mk_func(decl.get('sig'))
+    if k == 'prop':
+        return mk_property(decl)
     raise ValueError(k)
+
+
+def mk_property(decl):
+    """a module-level `Property(...)` written in a class body"""
+    from frappy import datatypes as D
+    from frappy.properties import Property
+    dt = {'str': D.StringType, 'int': D.IntRange, 'float': D.FloatRange}[decl['dt']]()
+    kw = {k: decl[k] for k in ('default', 'value', 'extname', 'export') if k in decl}
+    return Property('custom property', dt, **kw)
+
+
+AUTO_PROPS = ('implementation', 'interface_classes', 'features')      # set by Module.__init__ from the class chain
+
+
+def pexport(po, v):
+    """a property value in the form it is exported in (None: UNSET)"""
+    from frappy.properties import UNSET
+    if v is UNSET:
+        return None
+    try:
+        v = po.datatype.export_value(v)
+    except Exception:       # simple validators have no export_value
+        pass
+    return jtext(canon(v))
+
+
+def property_objects(cls):
+    """the module-level Property objects a class is described with: `propertyDict`, for a mixin outside HasProperties
+    the Property objects of its `__dict__`"""
+    from frappy.properties import Property
+    pd = getattr(cls, 'propertyDict', None)
+    if pd is None:
+        pd = {k: v for k, v in cls.__dict__.items() if isinstance(v, Property)}
+    return pd
+
+
+def dump_property(po):
+    """[value | None, default, extname, export] of a Property object"""
+    return [pexport(po, po.value), pexport(po, po.default), po.extname, jtext(canon(po.export))]
 
 
 # ----------------------------------------------------------------------------------------
@@ -161,6 +256,21 @@ def dt_tree(dt):
         return canon_dinfo(dt.export_datatype())
     except Exception:
         return ['value', [], [], None]
+
+
+def obj_tree(dt):
+    """the tree of a datatype OBJECT as the model takes it: like dt_tree, but a LimitsType is a node of kind 'limits'
+    with its one (doubly used) member"""
+    from frappy import datatypes as D
+    if dt is None:
+        return None
+    node = dt_tree(dt)
+    kids = dt_children(dt)
+    if isinstance(dt, D.LimitsType):
+        return ['limits', node[1], [obj_tree(kids[0])], None]
+    if kids:
+        node[2] = [obj_tree(k) for k in kids]
+    return node
 
 
 def catalogue(dt):
@@ -262,12 +372,13 @@ def dump_owner(owner, is_class):
     for aname, aobj in accessibles.items():
         accs.append([aname, dump_accessible(aobj, objs, aname, None if is_class else owner)])
     if is_class:
-        pd = getattr(owner, 'propertyDict', None) or {}
-        from frappy.properties import UNSET
-        mprops = sorted([pn, canon(po.value)] for pn, po in pd.items() if po.value is not UNSET)
-    else:
-        mprops = sorted([k, canon(v)] for k, v in owner.exportProperties().items() if k != 'implementation')
-    return {'acc': accs, 'mprops': mprops}, objs
+        pd = property_objects(owner)
+        mprops = [[pn] + dump_property(po) for pn, po in pd.items()]
+        objs += [('@prop/' + pn, po) for pn, po in pd.items()]
+        return {'acc': accs, 'mprops': mprops}, objs
+    mprops = sorted([k, jtext(canon(v))] for k, v in owner.exportProperties().items() if k != 'implementation')
+    mvals = [[pn, pexport(po, owner.propertyValues.get(pn, po.default))] for pn, po in owner.propertyDict.items()]
+    return {'acc': accs, 'mprops': mprops, 'mvals': mvals}, objs
 
 
 def partition(all_objs):
@@ -304,8 +415,8 @@ class _Srv:
 def builtin_owners():
     import frappy.modules as M
     import frappy.mixins as X
-    return {'Readable': M.Readable, 'Writable': M.Writable, 'Drivable': M.Drivable, 'HasControlledBy': X.HasControlledBy,
-            'HasOutputModule': X.HasOutputModule}
+    return {'Module': M.Module, 'Readable': M.Readable, 'Writable': M.Writable, 'Drivable': M.Drivable,
+            'HasControlledBy': X.HasControlledBy, 'HasOutputModule': X.HasOutputModule}
 
 
 def snapshot(classes, insts):
@@ -358,7 +469,10 @@ def run_op(op, classes, insts):
             return 'ok', 'inst:' + op['name'], extra
         if kind == 'mutate':
             obj = insts[op['inst']]
-            if op['kind'] == 'setprop':
+            if op['kind'] == 'setprop' and op.get('path'):
+                # a property of a member datatype of the datatype of this instance's parameter
+                dt_at(obj.accessibles[op['par']].datatype, op['path']).setProperty(op['key'], op['val'])
+            elif op['kind'] == 'setprop':
                 obj.accessibles[op['par']].setProperty(op['key'], op['val'])
             elif op['kind'] == 'write':
                 getattr(obj, 'write_' + op['par'])(op['val'])
@@ -368,7 +482,7 @@ def run_op(op, classes, insts):
                 HasControlledBy.register_input.__get__(_Proxy(obj, op['par']))(op['member'], None)
             return 'ok', 'inst:' + op['inst'], extra
         raise ValueError(kind)
-    except KeyError as e:
+    except (KeyError, IndexError) as e:
         if kind != 'class' and (op.get('cls') not in classes if kind == 'inst' else op.get('inst') not in insts):
             return 'skipped', None, extra        # refers to a class/instance whose creation failed
         return 'error:' + type(e).__name__, _target_of(op), extra
@@ -466,8 +580,50 @@ ROOT_KINDS = {
 }
 
 
+def gen_member(rng, depth):
+    """a member datatype of a tuple / struct: mostly a leaf, sometimes a container again"""
+    if depth < 2 and rng.random() < 0.15:
+        return gen_dt(rng, rng.choice(['array', 'tuple', 'limits']), depth)
+    return gen_dt(rng, rng.choice(['float', 'float', 'int', 'string', 'enum', 'bool']), depth)
+
+
+# module-level properties: the ones of frappy's Module that a class body or a configuration may set, and custom ones
+MPROP_ROOT = {'group': 'str', 'visibility': 'vis', 'slowinterval': 'interval', 'meaning': 'meaning'}
+MPROP_CUSTOM = {'vendor': 'str', 'serial': 'int', 'gain': 'float'}
+MPROP_VALUES = {'str': ['cryo', 'magnet', 'x'], 'vis': [1, 2, 3], 'interval': [20, 70, 0.5], 'meaning': [['temperature', 10], ['x', 1]],
+                'int': [1, 7, 42], 'float': [0.5, 2, 10]}
+MPROP_BAD = {'str': 5, 'vis': 9, 'interval': 1000, 'meaning': 'x', 'int': 'a', 'float': 'b'}
+
+
+def gen_mvalue(rng, kind):
+    return MPROP_BAD[kind] if rng.random() < 0.06 else rng.choice(MPROP_VALUES[kind])
+
+
+def gen_mdecl(rng, pn, known, is_mixin):
+    """a class-body entry under the name of a module property: mostly a bare value for a known property (the Property is
+    copied for the class), or a Property(...) declaration (new custom property, or replacing an inherited one)"""
+    kind = known.get(pn) or MPROP_CUSTOM.get(pn) or MPROP_ROOT[pn]
+    if (pn in known or is_mixin and pn in MPROP_ROOT) and rng.random() < 0.85:
+        if rng.random() < 0.03:
+            return kind, {'k': 'method'}
+        return kind, {'k': 'value', 'v': gen_mvalue(rng, kind)}
+    if pn in MPROP_ROOT:
+        return kind, {'k': 'value', 'v': gen_mvalue(rng, kind)}
+    d = {'k': 'prop', 'dt': kind}
+    if rng.random() < 0.85:
+        d['default'] = rng.choice(MPROP_VALUES[kind])
+    if rng.random() < 0.3:
+        d['value'] = rng.choice(MPROP_VALUES[kind])
+    r = rng.random()
+    if r < 0.4:
+        d['extname'] = pn
+    elif r < 0.7:
+        d['export'] = rng.choice([True, True, 'always'])
+    return kind, d
+
+
 def gen_dt(rng, kind=None, depth=0):
-    kind = kind or rng.choice(['float', 'float', 'int', 'int', 'string', 'bool', 'enum', 'array'])
+    kind = kind or rng.choice(['float', 'float', 'int', 'int', 'string', 'bool', 'enum', 'array', 'tuple', 'struct', 'limits', 'text'])
     if kind == 'float':
         props = {}
         lo = rng.choice([None, 0, -5, 1, 2])
@@ -478,7 +634,17 @@ def gen_dt(rng, kind=None, depth=0):
             props['max'] = hi
         if rng.random() < 0.4:
             props['unit'] = rng.choice(UNITS)
+        elif depth and rng.random() < 0.4:      # inside a container: a unit following the main unit of the module
+            props['unit'] = rng.choice(['$', '$/s'])
         return {'t': 'float', 'props': props}
+    if kind == 'tuple':
+        return {'t': 'tuple', 'props': {}, 'children': [gen_member(rng, depth + 1) for _ in range(rng.choice([2, 2, 3]))]}
+    if kind == 'struct':
+        return {'t': 'struct', 'props': {}, 'members': {n: gen_member(rng, depth + 1) for n in rng.choice([['a', 'b'], ['a', 'b', 'c']])}}
+    if kind == 'limits':
+        return {'t': 'limits', 'props': {}, 'child': gen_dt(rng, rng.choice(['float', 'float', 'int']), depth + 1)}
+    if kind == 'text':
+        return {'t': 'text', 'props': {'maxchars': rng.choice([5, 10, 40])} if rng.random() < 0.5 else {}}
     if kind == 'int':
         props = {}
         lo = rng.choice([None, 0, -5, 1, 2])
@@ -520,7 +686,7 @@ def gen_dtprops(rng, kind):
         if kind == 'float' and rng.random() < 0.3:
             out['unit'] = rng.choice(UNITS)
         return out
-    if kind == 'string':
+    if kind in ('string', 'text'):
         return {'maxchars': rng.choice([2, 4, 12])} if rng.random() < 0.7 else {}
     if kind == 'array':
         return rng.choice([{'maxlen': rng.choice([4, 6])}, {'max': rng.choice([4, 6])}, {}])
@@ -556,6 +722,10 @@ def gen_bare(rng, kind):
         return rng.choice([0, 1, 2, 'a', 'self'])
     if kind == 'array':
         return rng.choice([[], [1], [1, 2, 3]])
+    if kind in ('tuple', 'limits'):
+        return rng.choice([[1, 2], [0, 5], [3, 3]])
+    if kind == 'struct':
+        return rng.choice([{'a': 1, 'b': 2}, {'a': 0, 'b': 0, 'c': 1}])
     return rng.choice([0, 'x'])
 
 
@@ -659,6 +829,8 @@ def gen_program(rng, big):
     generated, so that later operations refer to what exists.  -> (program, init, steps)"""
     ex = Exec()
     kinds = {r: dict(v) for r, v in ROOT_KINDS.items()}      # class name -> {aname: kind} (generator's estimate)
+    mkinds = {r: dict(MPROP_ROOT) for r in ROOT_KINDS}       # class name -> {module property name: kind}
+    mvalued = {r: set() for r in ROOT_KINDS}                 # class name -> module properties carrying a value in its chain
     mixins = []
     modules = []
     insts = {}
@@ -667,7 +839,7 @@ def gen_program(rng, big):
     ncls = 0
     for _ in range(nops):
         r = rng.random()
-        if r < 0.55 or not modules:
+        if r < 0.45 or not modules:
             ncls += 1
             name = 'K%d' % ncls
             is_mixin = rng.random() < 0.22
@@ -715,12 +887,35 @@ def gen_program(rng, big):
                         d = {'k': 'param', 'desc': rng.choice(DESCS), 'dt': dt, 'props': gen_pprops(rng, dt['t']), 'inherit': True}
                 decls.append([aname, d])
                 est[aname] = decl_kind(d, prev)
+            mest, mval = {}, set()
+            for b in reversed(bases):
+                mest.update(mkinds.get(b, {}))
+                mval |= mvalued.get(b, set())
+            for _ in range(rng.choice([0, 0, 0, 1, 1, 2])):
+                r = rng.random()
+                if mval and r < 0.45:        # a second level: over a property that carries a value already
+                    pn = rng.choice(sorted(mval))
+                elif mest and r < 0.8:
+                    pn = rng.choice(sorted(mest))
+                elif is_mixin and r < 0.9:
+                    pn = rng.choice(sorted(MPROP_ROOT))
+                else:
+                    pn = rng.choice(sorted(MPROP_CUSTOM))
+                if any(a == pn for a, _ in decls):
+                    continue
+                kind, d = gen_mdecl(rng, pn, mest, is_mixin)
+                decls.insert(rng.randint(0, len(decls)), [pn, d])
+                mest[pn] = kind
+                if d['k'] == 'value' or 'value' in d:
+                    mval.add(pn)
             op = {'op': 'class', 'name': name, 'bases': bases, 'mixin': is_mixin, 'decls': decls}
             ops.append(op)
             if ex.apply(op)['outcome'] == 'ok':
                 kinds[name] = est
+                mkinds[name] = mest
+                mvalued[name] = mval
                 (mixins if is_mixin else modules).append(name)
-        elif r < 0.8 or not insts:
+        elif r < 0.72 or not insts:
             cls = rng.choice(modules)
             if insts and rng.random() < 0.4:     # a sibling of an existing instance (same class, other configuration)
                 cls = insts[rng.choice(sorted(insts))]
@@ -742,10 +937,15 @@ def gen_program(rng, big):
                     c = {rng.choice(['value', 'default']): gen_bare(rng, est[aname])}
                 if c:
                     cfg[aname] = c
+            if est.get('value') == 'float' and rng.random() < 0.3:
+                # the main unit of this module: every '$' in the units of its parameters (members included) follows it
+                cfg['value'] = dict(cfg.get('value') or {}, unit=rng.choice(['K', 'mm', 'V']))
             if rng.random() < 0.04:
                 cfg['nosuch'] = {'value': 1}
-            if rng.random() < 0.15:
-                cfg['group'] = rng.choice(['mg1', 'mg2'])
+            if rng.random() < 0.3 and mkinds.get(cls):       # module properties from the configuration
+                pn = rng.choice(sorted(mkinds[cls]))
+                v = gen_mvalue(rng, mkinds[cls][pn])
+                cfg[pn] = {'value': v} if rng.random() < 0.3 else v
             op = {'op': 'inst', 'name': name, 'cls': cls, 'cfg': cfg}
             ops.append(op)
             if ex.apply(op)['outcome'] == 'ok':
@@ -756,8 +956,19 @@ def gen_program(rng, big):
             if not est:
                 continue
             par = rng.choice(sorted(est))
-            if rng.random() < 0.35:
-                op = {'op': 'mutate', 'inst': iname, 'par': par, 'kind': 'write', 'val': rng.choice([1, 3, 5, 8, 20, 60, 'a'])}
+            try:       # the member datatype objects of this parameter of this instance, as they are now
+                members = dt_paths(ex.insts[iname].accessibles[par].datatype)[1:]
+            except Exception:
+                members = []
+            if members and rng.random() < 0.6:
+                path, member = rng.choice(members)
+                props = gen_dtprops(rng, dt_kind(member)) or \
+                    {'float': {'min': 1}, 'int': {'max': 6}, 'string': {'maxchars': 4}, 'text': {'maxchars': 4}}.get(dt_kind(member)) or \
+                    {'nosuch': 1}
+                key = rng.choice(sorted(props))
+                op = {'op': 'mutate', 'inst': iname, 'par': par, 'kind': 'setprop', 'path': path, 'key': key, 'val': props[key]}
+            elif rng.random() < 0.35:
+                op = {'op': 'mutate', 'inst': iname, 'par': par, 'kind': 'write', 'val': rng.choice([1, 3, 5, 8, 20, 60, 'a', [1, 2]])}
             elif est[par] == 'enum' and rng.random() < 0.8:
                 op = {'op': 'mutate', 'inst': iname, 'par': par, 'kind': 'enum', 'member': rng.choice(['m1', 'm2', 'x'])}
             else:
@@ -783,7 +994,7 @@ def wire_props(d):
 
 def wire_tree(spec):
     """the tree of the datatype object mk_dt(spec) builds (read off the real object: constructor defaults included)"""
-    return None if spec is None else dt_tree(mk_dt(spec))
+    return None if spec is None else obj_tree(mk_dt(spec))
 
 
 def _argument_of(decl):
@@ -801,9 +1012,11 @@ def wire_decl(decl):
     if k == 'cmd':
         # the argument as it is after decoration: `Command.__call__` sets the optional members of a struct from the signature
         return {'k': 'cmd', 'desc': None if decl.get('desc') is None else jtext(decl['desc']),
-                'arg': dt_tree(_argument_of(decl)), 'props': wire_props(decl.get('props') or {})}
+                'arg': obj_tree(_argument_of(decl)), 'props': wire_props(decl.get('props') or {})}
     if k == 'value':
         return {'k': 'value', 'v': jtext(canon(decl['v']))}
+    if k == 'prop':       # the Property object as it is built, before __set_name__
+        return dict(zip(('value', 'default', 'extname', 'export'), dump_property(mk_property(decl))), k='prop')
     if k == 'method':
         sig = decl.get('sig')
         opt = None
@@ -819,12 +1032,16 @@ def wire_op(op, outcome, mro):
         return {'op': 'class', 'ok': ok, 'name': op['name'], 'mro': mro or [op['name']], 'module': not op.get('mixin'),
                 'decls': [[a, wire_decl(d)] for a, d in op['decls']]}
     if op['op'] == 'inst':
-        cfg = [[a, wire_props(c)] for a, c in op['cfg'].items() if isinstance(c, dict)]
+        # a module property is configured as `name = value` or `name = {'value': value}` (modulebase.py:372-384)
+        cfg = [[a, wire_props(c) if isinstance(c, dict) else [['value', jtext(canon(c))]]] for a, c in op['cfg'].items() if c is not None]
+        if 'description' not in op['cfg']:
+            cfg.append(['description', [['value', jtext('module')]]])       # what run_op fills in
         return {'op': 'inst', 'ok': ok, 'name': op['name'], 'cls': op['cls'], 'cfg': cfg}
     if op['kind'] == 'write':      # a write changes the value only: not an operation of the model
         return {'op': 'setprop', 'ok': False, 'inst': op['inst'], 'par': op['par'], 'key': 'value', 'val': jtext(canon(op['val']))}
     if op['kind'] == 'setprop':
-        return {'op': 'setprop', 'ok': ok, 'inst': op['inst'], 'par': op['par'], 'key': op['key'], 'val': jtext(canon(op['val']))}
+        return {'op': 'setprop', 'ok': ok, 'inst': op['inst'], 'par': op['par'], 'path': list(op.get('path') or []),
+                'key': op['key'], 'val': jtext(canon(op['val']))}
     return {'op': 'enum', 'ok': ok, 'inst': op['inst'], 'par': op['par'], 'member': op['member']}
 
 
@@ -839,10 +1056,14 @@ def prelude_ops():
     import frappy.modules as M
     from frappy.params import Accessible, Parameter
     known = {M.Module: 'Module', M.Readable: 'Readable', M.Writable: 'Writable', M.Drivable: 'Drivable'}
-    items = [('Module', M.Module, True)] + [(n, c, n in ROOTS) for n, c in builtin_owners().items()]
+    from frappy.properties import Property
+    items = [(n, c, n in ROOTS) for n, c in builtin_owners().items()]
     for name, cls, module in items:
         decls = []
         for aname, aobj in cls.__dict__.items():
+            if isinstance(aobj, Property):
+                decls.append([aname, dict(zip(('value', 'default', 'extname', 'export'), dump_property(aobj)), k='prop')])
+                continue
             if not isinstance(aobj, Accessible):
                 continue
             own = dict(aobj.ownProperties)
@@ -850,13 +1071,13 @@ def prelude_ops():
                 desc = own.pop('description', None)
                 dt = own.pop('datatype', None)
                 inherit = not set(aobj.propertyDict) <= set(aobj.ownProperties)
-                decls.append([aname, {'k': 'param', 'desc': None if desc is None else jtext(desc), 'dt': dt_tree(dt),
+                decls.append([aname, {'k': 'param', 'desc': None if desc is None else jtext(desc), 'dt': obj_tree(dt),
                                       'props': wire_props(own), 'inherit': inherit}])
             else:
                 desc = own.pop('description', None)
                 arg = own.pop('argument', None)
                 own.pop('result', None)
-                decls.append([aname, {'k': 'cmd', 'desc': None if desc is None else jtext(desc), 'arg': dt_tree(arg),
+                decls.append([aname, {'k': 'cmd', 'desc': None if desc is None else jtext(desc), 'arg': obj_tree(arg),
                                       'props': wire_props(own)}])
         mro = [known[c] for c in cls.__mro__ if c in known] if module else [name]
         _prelude.append({'op': 'class', 'ok': True, 'name': name, 'mro': mro, 'module': module, 'decls': decls})
@@ -872,6 +1093,20 @@ def comparable(dumps):
             continue
         out[owner] = [[a, {'cmd': x['cmd'], 'props': x['props'], 'datainfo': x['datainfo'], 'export': x['export']}]
                       for a, x in d['acc']]
+    return out
+
+
+def comparable_m(dumps):
+    """the module-level part the model has to predict: per class every Property object of its propertyDict (value,
+    default, extname, export), per instance the value of every property but the ones set from the class chain"""
+    out = {}
+    for owner, d in dumps.items():
+        if 'mprops' not in d:
+            continue
+        if owner.startswith('cls:'):
+            out[owner] = d['mprops']
+        else:
+            out[owner] = [x for x in d['mvals'] if x[0] not in AUTO_PROPS]
     return out
 
 
@@ -954,7 +1189,7 @@ def requests_for(program, init, steps, second=None):
 
 
 def first_diff(model, impl):
-    for owner in sorted((set(model) - {'cls:Module'}) | set(impl)):
+    for owner in sorted(set(model) | set(impl)):
         if model.get(owner) != impl.get(owner):
             m, i = model.get(owner), impl.get(owner)
             if isinstance(m, list) and isinstance(i, list):
@@ -980,6 +1215,18 @@ def evaluate(ctx, program, init, steps, second, answers, laters):
                 [(m, st['after'], st['part'], i) for i, (m, st) in enumerate(zip(model['steps'], steps))]
         for m, dumps, part, where in snaps:
             d = first_diff(m['dumps'], comparable(dumps))
+            if d is None:
+                d = first_diff({o: [y for y in x if o.startswith('cls:') or y[0] not in AUTO_PROPS] for o, x in m['mdumps'].items()
+                                if o in dumps and 'mprops' in dumps[o]}, comparable_m(dumps))
+                if d is not None:
+                    d['owner'] += ' (module properties)'
+            if d is None:       # what exportProperties() shows of an instance
+                mexp = {o: sorted(x for x in v if x[0] not in AUTO_PROPS) for o, v in m['mexport'].items() if o.startswith('inst:')}
+                iexp = {o: sorted(x for x in v['mprops'] if x[0] not in AUTO_PROPS) for o, v in dumps.items()
+                        if o.startswith('inst:') and 'mprops' in v}
+                d = first_diff({o: x for o, x in mexp.items() if o in iexp}, iexp)
+                if d is not None:
+                    d['owner'] += ' (exportProperties)'
             if d is not None:
                 dis = {'case': program, 'model': d['model'], 'impl': d['impl'], 'at': where, 'owner': d['owner']}
                 break
@@ -1000,13 +1247,9 @@ def evaluate(ctx, program, init, steps, second, answers, laters):
         viols.append({'sig': f'C09:isolation:{what}-changes-{"+".join(okind)}',
                       'what': f'operation {i} ({json.dumps(op)[:300]}) changed the dump of {owners}', 'case': program,
                       'detail': {'step': i, 'owners': owners}})
-    for st in steps:
-        for g in st['part']:
-            owners = {x.rsplit(':', 1)[0] for x in g if '/prop/' in x}
-            if len(owners) > 1 and any(o.startswith('inst:') for o in owners):
-                viols.append({'sig': 'C09:mutable-property-value-shared-with-instance', 'what': f'a mutable property value object is '
-                              f'shared between owners: {g}', 'case': program})
-                break
+    # a mutable property value (a list given as bare value / `value` / `default` of a parameter without a converting datatype)
+    # shared between a class and its instances is latent aliasing, but no operation of the statement writes into such a list:
+    # it is counted in the evidence (run), never judged here - what an operation changes is decided by the monitors alone
     if not jwrite['ok']:
         bad = sorted({o + ':' + a for st in steps for o, d in st['after'].items() for a, x in d.get('acc', [])
                       if x.get('writes') is not None and x['writes'] != x['validates']})
@@ -1122,8 +1365,20 @@ def run(ctx):
         for st in steps:
             res.count('op.%s.%s' % (st['op']['op'], st['outcome']))
             if st['op']['op'] == 'class':
-                for _, d in st['op']['decls']:
-                    res.count('decl.' + d['k'] + ('' if d.get('inherit', True) else '.noinherit'))
+                for a, d in st['op']['decls']:
+                    if a in MPROP_ROOT or a in MPROP_CUSTOM:
+                        res.count('decl.module-property.' + d['k'])
+                    else:
+                        res.count('decl.' + d['k'] + ('' if d.get('inherit', True) else '.noinherit'))
+                    if d['k'] == 'param' and d.get('dt'):
+                        res.count('decl.datatype.' + str(d['dt']['t'] if isinstance(d['dt'], dict) else d['dt']))
+            elif st['op']['op'] == 'mutate':
+                res.count('mutate.%s%s.%s' % (st['op']['kind'], '.member' if st['op'].get('path') else '', st['outcome'].split(':')[0]))
+            elif st['op']['op'] == 'inst' and any(k in MPROP_ROOT or k in MPROP_CUSTOM for k in st['op']['cfg']):
+                res.count('inst.cfg.module-property.' + st['outcome'].split(':')[0])
+        if any(len({x.rsplit(':', 1)[0] for x in g if '/prop/' in x}) > 1 and any(x.startswith('inst:') for x in g if '/prop/' in x)
+               for st in steps for g in st['part']):
+            res.count('latent.mutable-property-value-shared-between-class-and-instance')
         res.count('classes=%s' % min(ncls, 6))
         res.count('multi-inheritance' if multi else 'single-inheritance-only')
         if (multi or override) and ninst and ncls >= 2:
